@@ -29,7 +29,9 @@ def load_detector(detector: Detector, filename: str | Path) -> None:
             f" '{type(detector).__name__}', expected '{type(new_detector).__name__}'"
         )
 
-    detector = new_detector
+    # Replace the content of the running detector by the loaded one
+    # (rebinding the local name 'detector' would have no effect for the caller)
+    detector.__dict__.update(new_detector.__dict__)
 
 
 def save_detector(detector: Detector, filename: str | Path) -> None:
